@@ -60,8 +60,23 @@ OPS = [
     ("any->all", r"\.any\(", ".all("),
     ("all->any", r"\.all\(", ".any("),
     ("skip-first", r"\.iter\(\)", ".iter().skip(1)"),
+    # second generation (sweep 2)
+    ("negate-if", r"\bif (?!let\b)([^{]+?) \{", r"if !(\1) {"),
+    ("nrows->ncols", r"\.nrows\(\)", ".ncols()"),
+    ("ncols->nrows", r"\.ncols\(\)", ".nrows()"),
+    ("iter-rev", r"\.iter\(\)(?!\.rev)", ".iter().rev()"),
+    ("some->none", r"\bSome\(([^()]*)\)(?=[,;\s\)]|$)", "None"),
+    ("swap-args", r"\((\w+), (\w+)\)", r"(\2, \1)"),
+    ("plus1", r"(?<=[\w\)]) \+ 1\b", ""),
+    ("outputlen->paramcount", r"\.output_len\(\)", ".parameter_count()"),
+    ("paramcount->basecount", r"\.parameter_count\(\)", ".base_function_count()"),
+    ("basecount->paramcount", r"\.base_function_count\(\)", ".parameter_count()"),
+    ("zip-drop", r"\.zip\(([^()]*(\([^()]*\))?[^()]*)\)\s*$", ""),
+    ("as_ref-take", r"\.as_ref\(\)\?", ".as_ref()?"),
 ]
-STMT_DELETE = re.compile(r"^\s*(self\.[\w\.]+ = .*;|return;|[\w\.]+\.(push|insert|extend|copy_from|set_column|fill)\(.*\);|\w+ [\+\-\*/]= .*;)\s*$")
+GEN2 = {"negate-if", "nrows->ncols", "ncols->nrows", "iter-rev", "some->none", "swap-args", "plus1", "outputlen->paramcount",
+        "paramcount->basecount", "basecount->paramcount", "zip-drop"}
+STMT_DELETE = re.compile(r"^\s*(self\.[\w\.]+ = .*;|return;|return Err\(.*\);|[\w\.]+\.(push|insert|extend|copy_from|set_column|fill)\(.*\);|\w+ [\+\-\*/]= .*;)\s*$")
 
 
 def code_lines(path):
@@ -137,9 +152,12 @@ def main():
     ap.add_argument("--repo", default="/repo")
     ap.add_argument("--props", default="all")
     ap.add_argument("--list", action="store_true")
+    ap.add_argument("--gen2", action="store_true", help="only the second-generation operators")
     a = ap.parse_args()
 
     all_sites = sites(a.repo)
+    if a.gen2:
+        all_sites = [x for x in all_sites if x["op"] in GEN2 or (x["op"] == "delete-stmt" and "return Err" in x["before"])]
     rnd = random.Random(a.seed)
     # stratify: at most 3 mutants per (file,line), sample without replacement
     rnd.shuffle(all_sites)
